@@ -70,6 +70,8 @@ pub struct Obs {
     reported: usize,
     saves: Vec<Option<i64>>,
     dropped: bool,
+    /// stress cases: a short random busy wait inside `read_inputs` (inside the locked closure)
+    jitter: u32,
 }
 
 #[derive(Default)]
@@ -143,6 +145,20 @@ impl IoDriver for Probe {
                 g = self.ctl.cv.wait(g).unwrap();
             }
             g.in_hold = false;
+        }
+        if g.jitter > 0 {
+            // perturb the schedule while the mutex is held (cheap xorshift on the stamp)
+            let mut x = self.stamp.load(Ordering::Relaxed).wrapping_mul(0x9E37_79B9_7F4A_7C15) | 1;
+            x ^= x >> 29;
+            let spins = (x % u64::from(g.jitter)) as u32;
+            drop(g);
+            for _ in 0..spins {
+                std::hint::spin_loop();
+            }
+            if spins % 7 == 0 {
+                std::thread::yield_now();
+            }
+            g = self.ctl.m.lock().unwrap();
         }
         g.enters += 1;
         let input = g.input;
@@ -234,6 +250,8 @@ pub struct CaseCfg {
     pub res: Vec<ResCfg>,
     pub c0: i64,
     pub p0: i64,
+    /// the shared names (ids as in the model), in the order given to `SharedGlobals::from_runtime`
+    pub names: Vec<u32>,
 }
 
 /// Global names of the generated programs, numbered as in the model.
@@ -399,7 +417,7 @@ fn show_err(e: Option<RuntimeError>) -> &'static str {
 }
 
 impl World {
-    pub fn build(cfg: &CaseCfg, stamp: Arc<AtomicU64>, miss_ms: u64, hang_s: u64) -> Result<World, String> {
+    pub fn build(cfg: &CaseCfg, stamp: Arc<AtomicU64>, miss_ms: u64, hang_s: u64, free: bool) -> Result<World, String> {
         let nclocks = cfg.res.iter().map(|r| r.clk).max().unwrap_or(0) + 1;
         let clocks: Vec<ClockSt> = (0..nclocks)
             .map(|_| ClockSt {
@@ -413,6 +431,11 @@ impl World {
         let mut ctls = Vec::new();
         for rc in &cfg.res {
             let ctl = Arc::new(Ctl::default());
+            if free {
+                let mut g = ctl.m.lock().unwrap();
+                g.free_run = true;
+                g.jitter = 2000;
+            }
             let mut rt = TestHarness::from_source(&source(rc.inc, cfg.c0, cfg.p0))
                 .map_err(|e| format!("compile: {e}"))?
                 .into_runtime();
@@ -432,7 +455,7 @@ impl World {
             ctls.push(ctl);
         }
         let shared = SharedGlobals::from_runtime(
-            vec!["cnt".into(), "pa".into(), "pb".into()],
+            cfg.names.iter().map(|n| SmolStr::new(name_of(*n))).collect(),
             &runtimes[0],
         )
         .map_err(|e| format!("from_runtime: {e:?}"))?;
@@ -895,6 +918,20 @@ pub fn gen_cfg(rng: &mut Rng) -> CaseCfg {
         res,
         c0: rng.range(-5, 50),
         p0: rng.range(-3, 20),
+        names: gen_shared_names(rng),
+    }
+}
+
+/// Mostly all three shared variables; sometimes a subset, another order, a duplicate, nothing.
+pub fn gen_shared_names(rng: &mut Rng) -> Vec<u32> {
+    match rng.below(12) {
+        0 => vec![0],
+        1 => vec![1, 2],
+        2 => vec![2, 1, 0],
+        3 => vec![0, 1, 0, 2],
+        4 => vec![0, 2],
+        5 => vec![],
+        _ => vec![0, 1, 2],
     }
 }
 
@@ -996,7 +1033,13 @@ fn gen_op(rng: &mut Rng, cfg: &CaseCfg, w: &World, pos: &[Pos], pending: &mut Ve
 
 fn write_cfg(n: u64, cfg: &CaseCfg, out: &mut Out) {
     out.line(format!("case {n}"));
-    out.line(format!("sys {} {} {}", cfg.res.len(), cfg.c0, cfg.p0));
+    out.line(format!(
+        "sys {} {} {} {}",
+        cfg.res.len(),
+        cfg.c0,
+        cfg.p0,
+        if cfg.names.is_empty() { "-".to_string() } else { join(cfg.names.iter(), ",") }
+    ));
     for (i, r) in cfg.res.iter().enumerate() {
         out.line(format!(
             "res {i} {} {} {} {} {} {}",
@@ -1014,7 +1057,13 @@ pub fn run_scripted(n: u64, rng: &mut Rng, args: &Args, stamp: Arc<AtomicU64>, o
     let cfg = gen_cfg(rng);
     let nops = 8 + rng.below(args.extra_usize("ops", 36) as u64) as usize;
     write_cfg(n, &cfg, out);
-    let mut w = World::build(&cfg, stamp, args.extra_usize("miss_ms", 12) as u64, args.extra_usize("hang_s", 10) as u64)?;
+    let mut w = World::build(
+        &cfg,
+        stamp,
+        args.extra_usize("miss_ms", 12) as u64,
+        args.extra_usize("hang_s", 10) as u64,
+        false,
+    )?;
     let mut pending: VecDeque<Op> = VecDeque::new();
     let mut pos;
     let mut paused_go = false;
@@ -1028,11 +1077,10 @@ pub fn run_scripted(n: u64, rng: &mut Rng, args: &Args, stamp: Arc<AtomicU64>, o
         if w.hung {
             break;
         }
-        let op = if k + 1 == nops && pending.is_empty() {
-            Op::Join
-        } else {
-            gen_op(rng, &cfg, &w, &pos, &mut pending)
-        };
+        if k + 1 >= nops && pending.is_empty() {
+            break;
+        }
+        let op = gen_op(rng, &cfg, &w, &pos, &mut pending);
         if let Op::Go(r) = op {
             if w.res[r].handle.state() == ResourceState::Paused {
                 paused_go = true;
@@ -1041,25 +1089,37 @@ pub fn run_scripted(n: u64, rng: &mut Rng, args: &Args, stamp: Arc<AtomicU64>, o
         out.line(op.show());
         out.count(&format!("op_{}", op.kind()));
         let ret = w.apply(&op);
-        let free = matches!(op, Op::Join);
-        pos = w.settle(free);
-        let st = w.status(&ret, &pos, free);
+        pos = w.settle(false);
+        let st = w.status(&ret, &pos, false);
         if st.contains("faulted") {
             fault_seen = true;
         }
         out.line(format!("impl {st}"));
-        if free {
-            break;
-        }
     }
-    // make sure every thread is gone (also after a hang or when the script ended inside a macro)
-    if !pos.iter().all(|p| *p == Pos::D) {
-        out.line("join");
-        w.release_everything();
-        pos = w.settle(true);
-        let st = w.status("-", &pos, true);
+    // End of the case: stop the threads one by one (each `stop` is an ordinary scripted operation,
+    // so no thread moves between the store of its flag and the wake-up of a clock it shares),
+    // then remove every obstacle and wait for the end.
+    for r in 0..w.res.len() {
+        if pos[r] == Pos::D || w.hung {
+            continue;
+        }
+        let op = Op::Stop(r);
+        out.line(op.show());
+        out.count("op_stop");
+        let ret = w.apply(&op);
+        pos = w.settle(false);
+        let st = w.status(&ret, &pos, false);
         out.line(format!("impl {st}"));
     }
+    out.line("join");
+    out.count("op_join");
+    w.release_everything();
+    pos = w.settle(true);
+    let st = w.status("-", &pos, true);
+    if st.contains("faulted") {
+        fault_seen = true;
+    }
+    out.line(format!("impl {st}"));
     let total_cycles: u64 = w.res.iter().map(|x| x.ctl.m.lock().unwrap().writes).sum();
     let active = w.res.iter().filter(|x| x.ctl.m.lock().unwrap().writes > 0).count();
     if w.saw_l {
@@ -1086,17 +1146,321 @@ pub fn run_scripted(n: u64, rng: &mut Rng, args: &Args, stamp: Arc<AtomicU64>, o
     Ok(())
 }
 
+// ------------------------------------------------------------------------------------------------
+// API cases: `SharedGlobals::from_runtime` and the single-threaded `tick_with_shared`
+// (the second copy of the locked closure, scheduler.rs `tick_with_shared`)
+// ------------------------------------------------------------------------------------------------
+
+fn show_names(ns: &[u32]) -> String {
+    if ns.is_empty() {
+        "-".to_string()
+    } else {
+        join(ns.iter(), ",")
+    }
+}
+
+pub fn run_api(n: u64, rng: &mut Rng, _args: &Args, stamp: Arc<AtomicU64>, out: &mut Out) -> Result<(), String> {
+    let mut cfg = gen_cfg(rng);
+    for r in cfg.res.iter_mut() {
+        r.gated = false;
+        r.restart = false;
+    }
+    write_cfg(n, &cfg, out);
+    // runtimes with probes, not spawned
+    let mut runners = Vec::new();
+    let mut ctls = Vec::new();
+    for rc in &cfg.res {
+        let ctl = Arc::new(Ctl::default());
+        ctl.m.lock().unwrap().free_run = true;
+        let mut rt = TestHarness::from_source(&source(rc.inc, cfg.c0, cfg.p0))
+            .map_err(|e| format!("compile: {e}"))?
+            .into_runtime();
+        rt.io_mut().resize(1, 20, 0);
+        rt.add_io_driver("probe", Box::new(Probe { ctl: ctl.clone(), stamp: stamp.clone() }));
+        let clock = StepClock { inner: ManualClock::new(), ctl: ctl.clone() };
+        runners.push(ResourceRunner::new(rt, clock, Duration::from_nanos(rc.interval)));
+        ctls.push(ctl);
+    }
+    // from_runtime with and without unknown names
+    for _ in 0..2 {
+        let k = rng.below(5) as usize;
+        let ns: Vec<u32> = (0..k).map(|_| *rng.pick(&[0u32, 1, 2, 3, 4, 9, 0, 1])).collect();
+        out.line(format!("fromrt {}", show_names(&ns)));
+        let res = SharedGlobals::from_runtime(
+            ns.iter().map(|n| SmolStr::new(name_of(*n))).collect(),
+            runners[0].runtime(),
+        );
+        out.line(match res {
+            Ok(_) => "impl ok".to_string(),
+            Err(RuntimeError::UndefinedVariable(_)) => "impl err-undefined".to_string(),
+            Err(e) => format!("impl err-other {e:?}"),
+        });
+        out.count("api_fromrt");
+    }
+    let shared = SharedGlobals::from_runtime(
+        cfg.names.iter().map(|n| SmolStr::new(name_of(*n))).collect(),
+        runners[0].runtime(),
+    )
+    .map_err(|e| format!("from_runtime: {e:?}"))?;
+    let nticks = 5 + rng.below(25);
+    let mut faulted = 0;
+    for _ in 0..nticks {
+        let r = rng.below(runners.len() as u64) as usize;
+        let inp = *rng.pick(&[0u8, 0, 0, 0, 0, 0, 1, 2]);
+        ctls[r].m.lock().unwrap().input = inp;
+        out.line(format!("scyc {r} {inp}"));
+        let res = runners[r].tick_with_shared(&shared);
+        let g = ctls[r].m.lock().unwrap();
+        match (&res, g.attempts.last().and_then(|a| a.out)) {
+            (Ok(()), Some(v)) => out.line(format!("impl ok {}/{}/{}/{}/{}", v[0], v[1], v[2], v[3], v[4])),
+            (Ok(()), None) => out.line("impl ok-without-outputs"),
+            (Err(_), _) => {
+                faulted += 1;
+                out.line("impl fault")
+            }
+        }
+        out.count("api_ticks");
+    }
+    out.line("sfinal");
+    let get = |n: &str| {
+        shared.get(n).as_ref().and_then(value_i64).map(|v| v.to_string()).unwrap_or_else(|| "?".into())
+    };
+    out.line(format!("impl {},{},{}", get("cnt"), get("pa"), get("pb")));
+    if faulted > 0 && runners.len() >= 2 {
+        out.line("tag nontrivial");
+    }
+    out.line("tag api");
+    out.line("end");
+    Ok(())
+}
+
+// ------------------------------------------------------------------------------------------------
+// Stress cases: free running threads, random controller; lock order recorded by the probes
+// ------------------------------------------------------------------------------------------------
+
+fn spin_us(us: u64) {
+    let t = Instant::now();
+    while t.elapsed() < StdDuration::from_micros(us) {
+        std::hint::spin_loop();
+    }
+}
+
+fn wait_state(h: &ResourceControl<StepClock>, want: &[ResourceState], max: StdDuration) -> Option<ResourceState> {
+    let t = Instant::now();
+    loop {
+        let s = h.state();
+        if want.contains(&s) {
+            return Some(s);
+        }
+        if t.elapsed() > max {
+            return None;
+        }
+        std::thread::yield_now();
+    }
+}
+
+pub fn run_stress(n: u64, rng: &mut Rng, args: &Args, stamp: Arc<AtomicU64>, out: &mut Out) -> Result<(), String> {
+    let mut cfg = gen_cfg(rng);
+    if cfg.res.len() < 2 {
+        let extra = cfg.res[0].clone();
+        cfg.res.push(ResCfg { clk: 1, ..extra });
+    }
+    for r in cfg.res.iter_mut() {
+        r.gated = false;
+        r.scale = 1;
+        r.interval = *rng.pick(&[0i64, MS, MS, 10 * MS]);
+    }
+    write_cfg(n, &cfg, out);
+    let hang_s = args.extra_usize("hang_s", 10) as u64;
+    let mut w = World::build(&cfg, stamp.clone(), 0, hang_s, true)?;
+    let nres = cfg.res.len();
+    let cap = args.extra_usize("stress_attempts", 300) as u64;
+    let nops = 20 + rng.below(80);
+    let confirm = StdDuration::from_millis(100);
+    // controller-side knowledge
+    let mut paused_confirmed = vec![false; nres];
+    let mut dirty = vec![false; nres];
+    let mut stopped = vec![false; nres];
+    let mut events: Vec<(u64, String)> = Vec::new();
+    let total_attempts = |w: &World| -> u64 { w.res.iter().map(|x| x.ctl.m.lock().unwrap().enters).sum() };
+    for _ in 0..nops {
+        if total_attempts(&w) >= cap {
+            break;
+        }
+        let r = rng.below(nres as u64) as usize;
+        match rng.below(16) {
+            0..=5 => {
+                let c = rng.below(w.clocks.len() as u64) as usize;
+                let iv = cfg.res.iter().filter(|x| x.clk == c).map(|x| x.interval).max().unwrap_or(MS).max(1);
+                let t = w.clocks[c].clock.advance(Duration::from_nanos(iv));
+                w.clocks[c].now = t.as_nanos();
+                out.count("stress_adv");
+            }
+            6..=8 => {
+                if !paused_confirmed[r] && !dirty[r] && !stopped[r] {
+                    // pause round: send, wait until the controller can read Paused
+                    if w.res[r].control.pause().is_ok() {
+                        match wait_state(
+                            &w.res[r].control,
+                            &[ResourceState::Paused, ResourceState::Faulted, ResourceState::Stopped],
+                            confirm,
+                        ) {
+                            Some(ResourceState::Paused) => {
+                                let s = stamp.fetch_add(1, Ordering::SeqCst);
+                                events.push((s, format!("spaused {r}")));
+                                paused_confirmed[r] = true;
+                                out.count("stress_pause_confirmed");
+                            }
+                            Some(_) => dirty[r] = true,
+                            None => {
+                                dirty[r] = true;
+                                let _ = w.res[r].control.resume();
+                                out.count("stress_pause_unconfirmed");
+                            }
+                        }
+                    }
+                }
+            }
+            9..=11 => {
+                if paused_confirmed[r] {
+                    let s = stamp.fetch_add(1, Ordering::SeqCst);
+                    events.push((s, format!("sresume {r}")));
+                    paused_confirmed[r] = false;
+                    let _ = w.res[r].control.resume();
+                    if wait_state(
+                        &w.res[r].control,
+                        &[ResourceState::Running, ResourceState::Faulted, ResourceState::Stopped],
+                        confirm,
+                    ) != Some(ResourceState::Running)
+                    {
+                        dirty[r] = true;
+                    }
+                }
+            }
+            12..=13 => {
+                w.res[r].ctl.m.lock().unwrap().input = *rng.pick(&[0u8, 0, 0, 1, 2]);
+            }
+            14 => {
+                let live = stopped.iter().filter(|s| !**s).count();
+                if live > 1 && !stopped[r] {
+                    w.res[r].control.stop();
+                    stopped[r] = true;
+                    out.count("stress_stop_midway");
+                }
+            }
+            _ => spin_us(rng.below(300)),
+        }
+        spin_us(rng.below(120));
+    }
+    // leave some resources paused when the stop arrives (stop-while-paused)
+    for r in 0..nres {
+        if paused_confirmed[r] && rng.bool() {
+            let s = stamp.fetch_add(1, Ordering::SeqCst);
+            events.push((s, format!("sresume {r}")));
+            paused_confirmed[r] = false;
+            let _ = w.res[r].control.resume();
+        }
+    }
+    w.release_everything();
+    let pos = w.settle(true);
+    let hung = w.hung;
+    // merge the lock-order log with the controller's events
+    let mut lines: Vec<(u64, String, Option<String>)> = Vec::new();
+    for (s, l) in events {
+        lines.push((s, l, None));
+    }
+    let mut faults = 0;
+    for (r, x) in w.res.iter().enumerate() {
+        let g = x.ctl.m.lock().unwrap();
+        for a in &g.attempts {
+            let imp = match a.out {
+                Some(v) => format!("ok {}/{}/{}/{}/{}", v[0], v[1], v[2], v[3], v[4]),
+                None => {
+                    faults += 1;
+                    "fault".to_string()
+                }
+            };
+            lines.push((a.stamp, format!("scyc {r} {}", a.input), Some(imp)));
+        }
+    }
+    lines.sort();
+    out.add("stress_cycles", lines.iter().filter(|l| l.2.is_some()).count() as u64);
+    for (_, l, imp) in lines {
+        out.line(l);
+        if let Some(imp) = imp {
+            out.line(format!("impl {imp}"));
+        }
+    }
+    for (r, x) in w.res.iter().enumerate() {
+        let g = x.ctl.m.lock().unwrap();
+        let sv = match g.saves.last() {
+            Some(Some(v)) => format!("v{}={}", g.saves.len(), v),
+            Some(None) => format!("v{}=?", g.saves.len()),
+            None => "v0".to_string(),
+        };
+        out.line(format!("sjoin {r}"));
+        out.line(format!(
+            "impl {},{}{},e{},{},{}",
+            pos[r].show(),
+            show_state(x.handle.state()),
+            if x.joined && !x.join_ok { "!panic" } else { "" },
+            g.enters,
+            sv,
+            show_err(x.handle.last_error())
+        ));
+    }
+    out.line("sfinal");
+    if hung {
+        out.line("impl hang");
+    } else {
+        let get = |n: &str| {
+            w.shared.get(n).as_ref().and_then(value_i64).map(|v| v.to_string()).unwrap_or_else(|| "?".into())
+        };
+        out.line(format!("impl {},{},{}", get("cnt"), get("pa"), get("pb")));
+    }
+    w.hung = hung;
+    if hung {
+        out.line("tag hang");
+        out.count("cases_with_hang");
+    }
+    if faults > 0 {
+        out.count("stress_cases_with_fault");
+    }
+    out.line("tag stress");
+    out.line("tag nontrivial");
+    out.line("end");
+    if hung {
+        return Err("hang".into());
+    }
+    Ok(())
+}
+
 pub fn run(args: &Args) -> i32 {
     let mut out = Out::new();
     let stamp = Arc::new(AtomicU64::new(1));
     let t0 = Instant::now();
+    let max_hangs = args.extra_usize("max_hangs", 2) as u64;
     for n in args.case_numbers() {
         let mut rng = Rng::for_case(args.seed, n);
-        if let Err(e) = run_scripted(n, &mut rng, args, stamp.clone(), &mut out) {
-            eprintln!("case {n}: {e}");
-            return 3;
+        let res = match n % 10 {
+            0 => run_api(n, &mut rng, args, stamp.clone(), &mut out),
+            3 | 7 => run_stress(n, &mut rng, args, stamp.clone(), &mut out),
+            _ => run_scripted(n, &mut rng, args, stamp.clone(), &mut out),
+        };
+        match res {
+            Ok(()) => {}
+            Err(e) if e == "hang" => {}
+            Err(e) => {
+                eprintln!("case {n}: {e}");
+                return 3;
+            }
         }
         out.count("cases");
+        // a hung thread costs `hang_s` seconds: after a few, the run has its failing inputs
+        if out.stats.get("cases_with_hang").copied().unwrap_or(0) >= max_hangs {
+            eprintln!("stopping after {max_hangs} hung cases");
+            break;
+        }
     }
     out.add("wall_ms", t0.elapsed().as_millis() as u64);
     out.finish(&args.out);
